@@ -130,7 +130,8 @@ def make_problem(kind, model, route, container, domain, attrs, continuous=False)
         e = (zc - 1.25) ** 2
         if target is None:
             for i, v in enumerate(vs):
-                e = e + (v - 0.3 * (i + 1)) ** 2
+                # ... and a power of the variable OBJECT itself (b ** 2 is not b on the relaxed interval)
+                e = e + (v - 0.3 * (i + 1)) ** 2 + 0.25 * v ** 2
         P.minimize(e)
         s = vs[0]
         for v in vs[1:]:
